@@ -4,7 +4,7 @@
 CONSTANTS
     Impl = "asfound"
     Tier = "tiny"
-    Fams = {"shapes", "single", "dep", "names", "totals", "pairs", "cross", "mix"}
+    Fams = {"shapes", "single", "dep", "names", "totals", "pairs", "cross", "mix", "update"}
     Denom = "uakt"
     DepositDenom = "uakt"
     OtherDenom = "uatom"
@@ -29,6 +29,7 @@ CONSTANTS
     VersionLen = 32
     MinDeposit = 5000000
     Funds = 1495000000
+    BaseDSeq = 7
     MidCPU = 3848
     MidMem = 486
     MidSto = 487925
